@@ -1,6 +1,6 @@
 """C17 - IntervalRegressor bootstraps over the whole training set, aggregates exactly."""
 from vf import loader
-from vf.core import Clause, Outcome, Violation, require, np_scalars, with_np
+from vf.core import Clause, Outcome, Violation, require, np_scalars, with_np, with_sk
 from vf.estimators import RecordingRegressor
 
 import math
@@ -185,8 +185,8 @@ def _agg_cases(draw, tier="quick"):
 
 
 CLAUSES = [
-    Clause("bootstrap", check_bootstrap, strategy=lambda tier: with_np(_boot_cases(tier)), quick=700, thorough=12000, quick_shards=12,
+    Clause("bootstrap", check_bootstrap, strategy=lambda tier: with_sk(with_np(_boot_cases(tier))), quick=700, thorough=12000, quick_shards=12,
            doc="resample size, alignment of (x,y,w), eligibility of every row, base estimator untouched"),
-    Clause("aggregate", check_aggregate, strategy=lambda tier: with_np(_agg_cases(tier)), quick=500, thorough=8000, quick_shards=4,
+    Clause("aggregate", check_aggregate, strategy=lambda tier: with_sk(with_np(_agg_cases(tier))), quick=500, thorough=8000, quick_shards=4,
            doc="predict == mean(predict_all); predict_sorted sorted permutation; min <= predict <= max"),
 ]
